@@ -504,6 +504,47 @@ fn run_inner(sc: &J) -> Result<Option<String>, String> {
             let _ = ci;
             Ok(None)
         }
+        // C16: the serde data model against hand-built expectations — for each (Rust value, schema, expected Value): the bytes
+        // write_ser produces are exactly the generic encoder's bytes for the expected Value (and the count is their number), and
+        // read_deser of those bytes gives the Rust value back. Options with null first and last, unit, unit-variant enums, tuples,
+        // newtypes, nested structs with sequences / options / maps, byte buffers under bytes and fixed, chars, every integer width,
+        // a flattened struct (serde map under a record schema).
+        "serde_model_matrix" => {
+            use std::collections::BTreeMap;
+            #[derive(serde::Serialize, serde::Deserialize, PartialEq, Debug, Clone)] enum Suit { Spades, Hearts, Diamonds, Clubs }
+            #[derive(serde::Serialize, serde::Deserialize, PartialEq, Debug, Clone)] struct Meters(f64);
+            #[derive(serde::Serialize, serde::Deserialize, PartialEq, Debug, Clone)] struct Inner { b: i32, c: String }
+            #[derive(serde::Serialize, serde::Deserialize, PartialEq, Debug, Clone)] struct Outer { id: i64, tags: Vec<String>, note: Option<String>, inner: Inner, counts: BTreeMap<String, i64>, suit: Suit, ok: bool }
+            #[derive(serde::Serialize, serde::Deserialize, PartialEq, Debug, Clone)] struct Flat { a: i32, #[serde(flatten)] inner: Inner }
+            #[derive(serde::Serialize, serde::Deserialize, PartialEq, Debug, Clone)] struct Widths { a: i8, b: i16, c: i32, d: i64, e: u8, f: u16, g: u32, h: f32, i: f64, j: char }
+            let rec = |fs: Vec<(&str, Value)>| Value::Record(fs.into_iter().map(|(k, v)| (k.to_string(), v)).collect());
+            let suit_schema = "{\"type\":\"enum\",\"name\":\"Suit\",\"symbols\":[\"Spades\",\"Hearts\",\"Diamonds\",\"Clubs\"]}";
+            let inner_schema = "{\"type\":\"record\",\"name\":\"Inner\",\"fields\":[{\"name\":\"b\",\"type\":\"int\"},{\"name\":\"c\",\"type\":\"string\"}]}";
+            macro_rules! item { ($st:expr, $v:expr, $e:expr) => {{ if let Some(m) = model_item($st, &$v, $e)? { return Ok(Some(m)); } }}; }
+            item!("[\"null\",\"int\"]", Some(5i32), Value::Union(1, Box::new(Value::Int(5))));
+            item!("[\"null\",\"int\"]", None::<i32>, Value::Union(0, Box::new(Value::Null)));
+            item!("[\"string\",\"null\"]", Some("x".to_string()), Value::Union(0, Box::new(Value::String("x".into()))));
+            item!("[\"string\",\"null\"]", None::<String>, Value::Union(1, Box::new(Value::Null)));
+            item!("\"null\"", (), Value::Null);
+            item!(suit_schema, Suit::Hearts, Value::Enum(1, "Hearts".into()));
+            item!(suit_schema, Suit::Clubs, Value::Enum(3, "Clubs".into()));
+            item!("{\"type\":\"record\",\"name\":\"t\",\"fields\":[{\"name\":\"f0\",\"type\":\"int\"},{\"name\":\"f1\",\"type\":\"string\"}]}", (7i32, "seven".to_string()), rec(vec![("f0", Value::Int(7)), ("f1", Value::String("seven".into()))]));
+            item!("{\"type\":\"record\",\"name\":\"Meters\",\"fields\":[{\"name\":\"value\",\"type\":\"double\"}]}", Meters(2.5), rec(vec![("value", Value::Double(2.5))]));
+            item!("\"bytes\"", serde_bytes::ByteBuf::from(vec![0u8, 255, 128]), Value::Bytes(vec![0, 255, 128]));
+            item!("{\"type\":\"fixed\",\"name\":\"f3\",\"size\":3}", serde_bytes::ByteBuf::from(vec![9u8, 8, 7]), Value::Fixed(3, vec![9, 8, 7]));
+            item!("\"string\"", 'é', Value::String("é".into()));
+            item!(&format!("{{\"type\":\"record\",\"name\":\"Outer\",\"fields\":[{{\"name\":\"id\",\"type\":\"long\"}},{{\"name\":\"tags\",\"type\":{{\"type\":\"array\",\"items\":\"string\"}}}},{{\"name\":\"note\",\"type\":[\"null\",\"string\"]}},{{\"name\":\"inner\",\"type\":{inner_schema}}},{{\"name\":\"counts\",\"type\":{{\"type\":\"map\",\"values\":\"long\"}}}},{{\"name\":\"suit\",\"type\":{suit_schema}}},{{\"name\":\"ok\",\"type\":\"boolean\"}}]}}"),
+                Outer { id: -70000, tags: vec!["a".into(), "".into(), "ccc".into()], note: Some("n".into()), inner: Inner { b: 300, c: "z".into() }, counts: [("k".to_string(), 1i64)].into_iter().collect(), suit: Suit::Diamonds, ok: true },
+                rec(vec![("id", Value::Long(-70000)), ("tags", Value::Array(vec![Value::String("a".into()), Value::String("".into()), Value::String("ccc".into())])), ("note", Value::Union(1, Box::new(Value::String("n".into())))),
+                    ("inner", rec(vec![("b", Value::Int(300)), ("c", Value::String("z".into()))])), ("counts", Value::Map([("k".to_string(), Value::Long(1))].into_iter().collect())), ("suit", Value::Enum(2, "Diamonds".into())), ("ok", Value::Boolean(true))]));
+            item!("{\"type\":\"record\",\"name\":\"Flat\",\"fields\":[{\"name\":\"a\",\"type\":\"int\"},{\"name\":\"b\",\"type\":\"int\"},{\"name\":\"c\",\"type\":\"string\"}]}",
+                Flat { a: 1, inner: Inner { b: 300, c: "q".into() } }, rec(vec![("a", Value::Int(1)), ("b", Value::Int(300)), ("c", Value::String("q".into()))]));
+            item!("{\"type\":\"record\",\"name\":\"Widths\",\"fields\":[{\"name\":\"a\",\"type\":\"int\"},{\"name\":\"b\",\"type\":\"int\"},{\"name\":\"c\",\"type\":\"int\"},{\"name\":\"d\",\"type\":\"long\"},{\"name\":\"e\",\"type\":\"int\"},{\"name\":\"f\",\"type\":\"int\"},{\"name\":\"g\",\"type\":\"long\"},{\"name\":\"h\",\"type\":\"float\"},{\"name\":\"i\",\"type\":\"double\"},{\"name\":\"j\",\"type\":\"string\"}]}",
+                Widths { a: i8::MIN, b: i16::MAX, c: i32::MIN, d: i64::MAX, e: u8::MAX, f: u16::MAX, g: u32::MAX, h: -0.0, i: f64::MIN_POSITIVE, j: 'x' },
+                rec(vec![("a", Value::Int(-128)), ("b", Value::Int(32767)), ("c", Value::Int(i32::MIN)), ("d", Value::Long(i64::MAX)), ("e", Value::Int(255)), ("f", Value::Int(65535)), ("g", Value::Long(u32::MAX as i64)), ("h", Value::Float(-0.0)), ("i", Value::Double(f64::MIN_POSITIVE)), ("j", Value::String("x".into()))]));
+            item!("{\"type\":\"array\",\"items\":[\"null\",\"long\"]}", vec![Some(1i64), None, Some(-1)], Value::Array(vec![Value::Union(1, Box::new(Value::Long(1))), Value::Union(0, Box::new(Value::Null)), Value::Union(1, Box::new(Value::Long(-1)))]));
+            Ok(None)
+        }
         // C06/C05/C14: systematic truncation sweep over a built-in corpus of (schema, value) pairs — every proper prefix of a
         // canonical encoding must be rejected or decode to a value whose re-encoding is exactly the consumed bytes;
         // payload lengths straddle 2^7, 2^14, 2^16 (+1) so size-dependent code paths are exercised.
@@ -700,6 +741,38 @@ fn run_inner(sc: &J) -> Result<Option<String>, String> {
                 f.extend(crate::refimpl::long(size as i64)); f.extend(crate::refimpl::long(size as i64)); f.extend(std::iter::repeat(2u8).take(size)); f.extend_from_slice(&[4u8; 16]);
                 let ok = apache_avro::Reader::new(&f[..]).map_err(|e| e.to_string())?.collect::<Result<Vec<Value>, _>>().is_ok();
                 if ok != must_ok { return Ok(Some(format!("container reader: block of {size} bytes under limit {l}: accepted = {ok}"))); }
+            }
+            Ok(None)
+        }
+        // C19 (fresh process): threads racing to SET the allocation limit and the human-readable flag while others USE them — every
+        // caller is told the same value, it is one of the values proposed (or the default, if a user got there first), and it never
+        // changes afterwards. A bounded sample of schedules (the contract side reduces schedules to sequences by A12).
+        "settings_race" => {
+            use std::sync::{Arc, Barrier};
+            let n = 8usize;
+            let barrier = Arc::new(Barrier::new(2 * n));
+            let mut handles = Vec::new();
+            for i in 0..n {
+                let b = barrier.clone();
+                handles.push(std::thread::spawn(move || { b.wait(); (apache_avro::util::max_allocation_bytes(1000 + i), apache_avro::util::set_serde_human_readable(i % 2 == 0)) }));
+                let b = barrier.clone();
+                handles.push(std::thread::spawn(move || { b.wait();
+                    let schema = Schema::parse_str("\"bytes\"").unwrap();
+                    let _ = apache_avro::from_avro_datum(&schema, &mut &[4u8, 1, 2][..], None);
+                    (apache_avro::util::max_allocation_bytes(77), apache_avro::util::set_serde_human_readable(true)) }));
+            }
+            let results: Vec<(usize, bool)> = handles.into_iter().map(|h| h.join().unwrap()).collect();
+            let (l0, h0) = results[0];
+            if results.iter().any(|r| *r != (l0, h0)) { return Ok(Some(format!("racing callers were told different values: {results:?}"))); }
+            let proposed: Vec<usize> = (0..n).map(|i| 1000 + i).chain([77, apache_avro::util::DEFAULT_MAX_ALLOCATION_BYTES]).collect();
+            if !proposed.contains(&l0) { return Ok(Some(format!("the limit in force ({l0}) is none of the proposed values"))); }
+            for _ in 0..3 { if apache_avro::util::max_allocation_bytes(5) != l0 || apache_avro::util::set_serde_human_readable(!h0) != h0 { return Ok(Some("a setting changed after the race".into())); } }
+            // and the decoders apply exactly that limit
+            let schema = Schema::parse_str("\"bytes\"").map_err(|e| e.to_string())?;
+            let enc = |k: usize| { let mut v = crate::refimpl::long(k as i64); v.extend(std::iter::repeat(1u8).take(k)); v };
+            if l0 < (1 << 20) {
+                if apache_avro::from_avro_datum(&schema, &mut &enc(l0)[..], None).is_err() { return Ok(Some(format!("length {l0} == limit in force is rejected"))); }
+                if apache_avro::from_avro_datum(&schema, &mut &enc(l0 + 1)[..], None).is_ok() { return Ok(Some(format!("length {} > limit in force {l0} is accepted", l0 + 1))); }
             }
             Ok(None)
         }
@@ -1366,6 +1439,24 @@ fn run_inner(sc: &J) -> Result<Option<String>, String> {
 #[allow(dead_code)]
 fn _u(_: &Value) {}
 
+
+/// one item of `serde_model_matrix`
+fn model_item<T: serde::Serialize + serde::de::DeserializeOwned + PartialEq + std::fmt::Debug>(st: &str, v: &T, expect: Value) -> Result<Option<String>, String> {
+    let schema = Schema::parse_str(st).map_err(|e| format!("{st}: {e}"))?;
+    let w = apache_avro::writer::datum::GenericDatumWriter::builder(&schema).build().map_err(|e| e.to_string())?;
+    let mut want = Vec::new();
+    w.write_value_ref(&mut want, &expect).map_err(|e| format!("{st}: the expected value {expect:?} does not encode: {e}"))?;
+    let mut got = Vec::new();
+    let n = match w.write_ser(&mut got, v) { Ok(n) => n, Err(e) => return Ok(Some(format!("schema {st}: write_ser({v:?}) fails: {e}"))) };
+    if got != want { return Ok(Some(format!("schema {st}: write_ser({v:?}) = {:02x?}, the generic encoder writes {expect:?} as {:02x?}", got, want))); }
+    if n != got.len() { return Ok(Some(format!("schema {st}: write_ser({v:?}) returned {n} for {} bytes", got.len()))); }
+    let rd = apache_avro::reader::datum::GenericDatumReader::builder(&schema).build().map_err(|e| e.to_string())?;
+    let mut r = &got[..];
+    match rd.read_deser::<T>(&mut r) {
+        Ok(back) if back == *v && r.is_empty() => Ok(None),
+        other => Ok(Some(format!("schema {st}: read_deser of {:02x?} gives {other:?} ({} byte(s) left), written from {v:?}", got, r.len()))),
+    }
+}
 
 /// one corpus item of `faulty_sink_matrix`
 fn matrix_item<T: serde::Serialize>(st: &str, jv: &T, ref_value: Value) -> Result<Option<String>, String> {
